@@ -628,12 +628,13 @@ class Forall(object):
     'real' => a real variable):  body(*ks)   where body returns a formula
     (bool scalar, Forall, or list of those)."""
 
-    def __init__(self, ranges, body, name=None):
+    def __init__(self, ranges, body, name=None, lazy=False):
         if not isinstance(ranges, (list, tuple)):
             ranges = [ranges]
         self.ranges = list(ranges)
         self.body = body
         self.name = name
+        self.lazy = lazy        # definitional axiom: only unfolded in the late proof stages
 
     def __repr__(self):
         return "Forall(%s, %s)" % (self.ranges, self.name)
@@ -666,7 +667,7 @@ def subst_formula(f, k, t):
         return wrap(z3.substitute(f.t, (k, to_z3(t, 'int'))))
     if isinstance(f, Forall):
         body = f.body
-        return Forall(f.ranges, lambda *a: subst_formula(body(*a), k, t), f.name)
+        return Forall(f.ranges, lambda *a: subst_formula(body(*a), k, t), f.name, f.lazy)
     if isinstance(f, (list, tuple)):
         return [subst_formula(x, k, t) for x in f]
     if isinstance(f, dict):
